@@ -1297,7 +1297,7 @@ func run(r *report.Run, shard, nshards int, replayFile string) {
 		richNote = " The same search is first run to depth 4 with the full alphabet (every operation kind for every one of v0..v2)."
 	}
 	r.Rule = fmt.Sprintf("(P) product: 1..%d validators x stake alphabet {1,2,3,1e6,2^53-1,2^53+1,1e18,2^62} (every vector) x every subset of them with an account on a second chain; stakes set by real MsgDelegate txs + staking end-blocker, snapshot built by the valset end-block at height 50, published by the evm keeper on c1 (OnSnapshotBuilt) and on c2 (chain activated afterwards, older snapshot live there, just-in-time path); every queued UpdateValset compared with floor(2^32*share/total) in math/big, order, sum <= 2^32, quorum gate. "+
-		"(B) BFS to depth %d from %d initial states (stake vectors of v0..v2 from the same alphabet, all registered on the active chain c1, snapshot built and published) over Delegate(+1 | x2)/Undelegate(1)/Unbond (real staking txs + staking end-blocker), Jail (valset keeper, else slashing keeper)/Unjail (MsgUnjail), StakingEnd, Add/RemoveAccount(v,c1|c2), AddChain(c2), ActivateChain(c2), Build (valset end-block, h %% 50 == 0), Activate(id,c) for the two latest ids (SetSnapshotOnChain), JustInTime(c) (evm PreJobExecution), Advance31d (<=2); validators take the roles of the alphabet in a rotation that depends on the stake vector (+1/Undelegate: one validator, x2: one, Unbond: one, Jail/Unjail: two, accounts: three on c2 and one on c1).%s (L) chain lifecycle BFS (quick depth 4, thorough depth 5) from two initial states per stake vector (chains c1,c2,old active with v0..v2 registered on all three and a snapshot built; the same after governance removed 'old', added and activated 'new' and v0,v1 re-registered on {c1,c2,new} while v2 still holds {c1,c2,old}) over GovRemoveChain(x)/GovAddChain(old|new) (x/evm governance proposal handler; removal does not purge accounts), ActivateChain(x), SetAccounts(v,list) (real MsgAddExternalChainInfoForValidator replacing the whole list; lists {c1,c2,old},{c1,c2,new},{c1,c2,old,new} for every validator and {c1,c2},{c1,c2,zz},{c1,old,zz},{c1:EVM,c2,old},{c1:Evm,c2:EVM,old,new:EVM},{c1:solana,c2,old} for v2, zz = id no chain ever had, ref:TYPE = chain type spelled TYPE instead of evm), Jail/Unjail(v2), StakingEnd, Build. After every transition: every stored snapshot against its first-seen bytes, ids, current snapshot, membership/shares/total of a new snapshot against the staking module, every queued UpdateValset against the reference", maxK, depth, nvec, richNote)
+		"(B) BFS to depth %d from %d initial states (stake vectors of v0..v2 from the same alphabet, all registered on the active chain c1, snapshot built and published) over Delegate(+1 | x2)/Undelegate(1)/Unbond (real staking txs + staking end-blocker), Jail (valset keeper, else slashing keeper)/Unjail (MsgUnjail), StakingEnd, Add/RemoveAccount(v,c1|c2), AddChain(c2), ActivateChain(c2), Build (valset end-block, h %% 50 == 0), Activate(id,c) for the two latest ids (SetSnapshotOnChain), JustInTime(c) (evm PreJobExecution), Advance31d (<=2); validators take the roles of the alphabet in a rotation that depends on the stake vector (+1/Undelegate: one validator, x2: one, Unbond: one, Jail/Unjail: two, accounts: three on c2 and one on c1).%s (L) chain lifecycle BFS (quick depth 4, thorough depth 5) from two initial states per stake vector (chains c1,c2,old active with v0..v2 registered on all three and a snapshot built; the same after governance removed 'old', added and activated 'new' and v0,v1 re-registered on {c1,c2,new} while v2 still holds {c1,c2,old}) over GovRemoveChain(x)/GovAddChain(old|new) (x/evm governance proposal handler; removal does not purge accounts), ActivateChain(x), SetAccounts(v,list) (real MsgAddExternalChainInfoForValidator replacing the whole list; lists {c1,c2,old},{c1,c2,new},{c1,c2,old,new} for every validator and {c1,c2},{c1,c2,zz},{c1,old,zz},{c1:EVM,c2,old},{c1:Evm,c2:EVM,old,new:EVM},{c1:solana,c2,old} for v2, zz = id no chain ever had, ref:TYPE = chain type spelled TYPE instead of evm), Jail/Unjail(v2), StakingEnd, Build, Activate(latest id, c) for every known chain the latest snapshot is not live on (SetSnapshotOnChain; in the migrated initial states the first snapshot is already live on c1, c2 and old, so chains lists grow to three and four entries). After every transition: every stored snapshot against its first-seen bytes, ids, current snapshot, membership/shares/total of a new snapshot against the staking module, every queued UpdateValset against the reference", maxK, depth, nvec, richNote)
 	r.Assumptions = []string{
 		"quorum threshold read as the integer 2863311530 = floor(2^33/3) used by the bridge contract; demanding 2863311531 (ceil) would alarm on correct code",
 		"'account on every active chain': an external chain info with that chain reference id (ValidatorSupportsAllChains compares reference ids of chains whose status is ACTIVE); only evm-typed accounts are registered, so the reading does not depend on the chain type",
